@@ -39,6 +39,26 @@ class Ctx:
         return open(os.path.join(self.repo, rel)).read()
 
 
+_CTX_CACHE = {}
+
+
+def get_ctx(repo, tier, defs, tag):
+    """one analysis context (facts + parsed modules + per-context caches) per (tree, configuration) and process: the 20 checks
+    of `./check all` and of a scratch-copy campaign share the parsed IR facts instead of re-reading them per property"""
+    key = (os.path.abspath(repo), tier, tuple(defs), tag)
+    c = _CTX_CACHE.get(key)
+    if c is None:
+        c = Ctx(repo, tier, defs, tag)
+        if len(_CTX_CACHE) >= 4:
+            _CTX_CACHE.clear()
+        _CTX_CACHE[key] = c
+    return c
+
+
+def clear_ctx_cache():
+    _CTX_CACHE.clear()
+
+
 class Report:
     def __init__(self, pid, ctx):
         self.pid = pid
@@ -165,7 +185,7 @@ def run_property(pid, rules_mod, repo="/repo", tier="quick", configs=None, seed=
     ctxs = []
     for tag, defs in configs:
         try:
-            ctx = Ctx(repo, tier, defs, tag)
+            ctx = get_ctx(repo, tier, defs, tag)
             ctx.facts.ensure()
         except AnalysisBroken as e:
             if tag != "default" and getattr(rules_mod, "OPTIONAL_CONFIGS", None) and tag in rules_mod.OPTIONAL_CONFIGS:
@@ -205,7 +225,7 @@ def run_property(pid, rules_mod, repo="/repo", tier="quick", configs=None, seed=
         if tag == "default" and not getattr(rules_mod, "NO_NDEBUG_RULE", False):
             from . import ndebug
             try:
-                ndebug.check(ctx, rep, pid, lambda defs, t: Ctx(repo, tier, tuple(defs), t))
+                ndebug.check(ctx, rep, pid, lambda defs, t: get_ctx(repo, tier, tuple(defs), t))
             except (Broken, AnalysisBroken, mm.Unknown) as e:
                 rep.unk(pid + ".ndebug", "-", str(e))
             except Exception as e:
